@@ -1010,6 +1010,106 @@ def rule_r15(facts, col, rule_id="C08.R15"):
         col.ok(rule_id, "no-tail-calls", "src/fir.rs", "no function is handed an open-ended tail of a slice")
 
 
+def rule_r18(facts, col, rule_id="C08.R18"):
+    """a counter of owed samples pays what was done: where work() clamps a count kept in the block (`self.F`: samples still to
+    pad, to skip) to a window - `n = min(self.F, window.len())` - every write to F in work() that lies on a path with that
+    clamp is `F - n`.  Zeroing F (`mem::take`, `= 0`) or subtracting the window's length instead forgets the part that did
+    not fit: the result then depends on how much room / input the call happened to see.  Reported on affirmative evidence
+    (a write to F of another shape on a path with the clamp); other uses of F are not judged."""
+    from ..mir import self_field_path
+    n_ = 0
+    for body0 in facts.impl_bodies(BLOCK_TRAIT, "work"):
+        if body0.from_derive:
+            continue
+        body = effects.work_view(facts, body0, methods=True)
+
+        def field_of(e, depth=0):
+            """self field an operand of the clamp stands for: `self.F`, `mem::take(&mut self.F)`, `mem::replace(&mut self.F, _)`"""
+            pe = peel(e, through_try=False)
+            if pe is None or depth > 3:
+                return None
+            fp = self_field_path(pe)
+            if fp and len(fp) == 1:
+                return fp[0]
+            if pe.k == "call" and (pe.q or "") in ("std::mem::take", "std::mem::replace") and pe.args:
+                a = pe.args[0]
+                k_ = 0
+                while a is not None and a.k in ("ref", "deref") and k_ < 4:
+                    a = a.a
+                    k_ += 1
+                fp = self_field_path(a) if a is not None else None
+                if fp and len(fp) == 1:
+                    return fp[0]
+            return None
+
+        clamps = []
+        for bb, t in body.calls():
+            qs = Body.callee_qs(t)
+            if not any(q in MIN_CALLS for q in qs) or len(t["args"]) != 2:
+                continue
+            ops = [body.operand_expr(a) for a in t["args"]]
+            for i in (0, 1):
+                f = field_of(ops[i])
+                w = c09.len_of_window(ops[1 - i])
+                if f and w:
+                    clamps.append((bb, f, w))
+        for cbb, f, w in clamps:
+            writes = []
+            for bb in sorted(body.reachable(0)):
+                for st in body.blocks[bb]["stmts"]:
+                    if st["k"] == "assign" and st["dst"]["l"] == 1 and len(st["dst"]["p"]) == 2 and st["dst"]["p"][0] == "*" \
+                            and isinstance(st["dst"]["p"][1], dict) and st["dst"]["p"][1].get("n") == f:
+                        writes.append((bb, body.rvalue_expr(st["rv"]), "assignment"))
+                t = body.term(bb)
+                if t["k"] == "call" and (t["f"].get("q") or "") in ("std::mem::take", "std::mem::replace", "std::mem::swap"):
+                    for a in t["args"]:
+                        e = body.operand_expr(a)
+                        k_ = 0
+                        while e is not None and e.k in ("ref", "deref") and k_ < 4:
+                            e = e.a
+                            k_ += 1
+                        fp = self_field_path(e) if e is not None else None
+                        if fp == [f] and (t.get("argtys") or [""])[0].startswith("&mut"):
+                            writes.append((bb, None, "mem::" + t["f"]["q"].split("::")[-1]))
+            for wbb, e, how in writes:
+                if not (wbb == cbb or wbb in body.reachable(cbb) or cbb in body.reachable(wbb)):
+                    continue
+                n_ += 1
+                key = "%s:%s:%s" % (body0.q, f, how)
+                pe = peel(e, through_try=False) if e is not None else None
+                ok = False
+                if pe is not None and pe.k == "bin" and pe.op == "Sub":
+                    fa = self_field_path(peel(pe.a, through_try=False))
+                    pb = peel(pe.b, through_try=False)
+                    if fa == [f] and pb is not None and pb.k == "call" and pb.bb == cbb:
+                        ok = True
+                    elif fa == [f]:
+                        # another amount: fine when it is itself bounded by the clamp (`n.min(x)`), else undecided
+                        ubs = []
+                        c09._upper_bounds(pe.b, ubs)
+                        if any(peel(u).k == "call" and peel(u).bb == cbb and not m for u, m in ubs):
+                            ok = True
+                        elif c09.len_of_window(pb):
+                            col.bad(rule_id, key, body.where(wbb),
+                                    "self.%s is clamped to the window of self.%s (`min(self.%s, len)`) but reduced by the window's whole length: "
+                                    "whenever the counter is the smaller one it underflows / overshoots, and what is owed depends on the room "
+                                    "this call happened to see" % (f, w[0], f), {})
+                            continue
+                        else:
+                            col.silent(rule_id, key, body.where(wbb), "reduced by an amount not related to the clamp: not decided")
+                            continue
+                if ok:
+                    col.ok(rule_id, key, body.where(wbb), "self.%s is reduced by the clamped amount" % f)
+                elif pe is None or (pe.k == "const") or how.startswith("mem::"):
+                    col.bad(rule_id, key, body.where(wbb),
+                            "self.%s (samples still owed) is clamped to the window of self.%s - `min(self.%s, len)` - but then overwritten "
+                            "(%s) instead of reduced by the clamped amount: the part that did not fit into this call's window is forgotten, "
+                            "so the result depends on how much room / input the call happened to see" % (f, w[0], f, how), {})
+                else:
+                    col.silent(rule_id, key, body.where(wbb), "write of another shape: not decided")
+    return n_
+
+
 def rule_r16(facts, col, rule_id="C08.R16"):
     """a copy stage takes what it gives: where the count of a produce() is `min(len(A), len(B))` of the read window A and the
     write window B (a 1:1 copy limited by both sides), a consume() on A on the same path uses that same count - not A's whole
@@ -1125,6 +1225,13 @@ def run(ctx):
     ctx.floor("C08.R10", 10, "hand-written work() bodies that consume part of a window")
     rule_r11(facts, ctx)
     ctx.floor("C08.R11", 25, "output commitments (produce/push) in hand-written work() bodies of blocks with an input stream")
+    from . import c14 as _c14
+    # a source that reassembles samples from byte pieces: a shortcut for sample-aligned reads is taken only with no bytes pending
+    # (else the output depends on how read() cut the byte stream and on the output room that sized the request; seed s11-c08)
+    _c14.rule_r4(facts, c19._Retag(ctx, "C14.R4", "C08.R17"))
+    ctx.floor("C08.R17", 1, "FileSource fast path (same rule as C14.R4 / C16.R10)")
+    rule_r18(facts, ctx)
+    ctx.floor("C08.R18", 1, "owed-sample counters clamped to a window (Delay::current_delay, Delay::skip, Skip::skip today; refactors that clamp through a helper keep fewer)")
     rule_r16(facts, ctx)
     ctx.floor("C08.R16", 3, "1:1 copy stages (Skip, Delay, FftFilterFloat x2 today)")
     rule_r15(facts, ctx)
